@@ -194,9 +194,11 @@ class Project:
 
     PKG = "formulaic"
 
-    def __init__(self, root: str = "/repo", overlay: Optional[Dict[str, str]] = None):
+    def __init__(self, root: str = "/repo", overlay: Optional[Dict[str, str]] = None, normalizer=None):
         self.root = root
         self.overlay = dict(overlay or {})
+        self.normalizer = normalizer  # formulint.normalize.Normalizer: this Project is then the *normalised view*
+        self.view = "normalised" if normalizer is not None else "raw"
         self.modules: Dict[str, ModuleInfo] = {}
         self.functions: Dict[str, FunctionInfo] = {}
         self.classes: Dict[str, ClassInfo] = {}
@@ -242,6 +244,8 @@ class Project:
             is_pkg = modname.endswith(".__init__")
             if is_pkg:
                 modname = modname[: -len(".__init__")]
+            if self.normalizer is not None:
+                tree = self.normalizer.module(tree, modname)
             mi = ModuleInfo(modname, rel, src, tree, self, is_pkg=is_pkg)
             self.modules[modname] = mi
             self.stats["modules"] += 1
